@@ -846,7 +846,12 @@ class QueryBuilder(Selectable, Term):
         :return:
             A copy of the query with the tables replaced.
         """
-        self._from = [new_table if table == current_table else table for table in self._from]
+        self._from = [
+            new_table
+            if table == current_table
+            else (table.replace_table(current_table, new_table) if isinstance(table, Term) else table)
+            for table in self._from
+        ]
         self._insert_table = new_table if self._insert_table == current_table else self._insert_table
         self._update_table = new_table if self._update_table == current_table else self._update_table
 
@@ -1721,7 +1726,11 @@ class Join:
         :return:
             A copy of the join with the tables replaced.
         """
-        self.item = new_table if self.item == current_table else self.item
+        if self.item == current_table:
+            self.item = new_table
+        elif isinstance(self.item, Term):
+            # a joined sub-query: replace inside it
+            self.item = self.item.replace_table(current_table, new_table)
 
 
 class JoinOn(Join):
@@ -1765,7 +1774,11 @@ class JoinOn(Join):
         :return:
             A copy of the join with the tables replaced.
         """
-        self.item = new_table if self.item == current_table else self.item
+        if self.item == current_table:
+            self.item = new_table
+        elif isinstance(self.item, Term):
+            # a joined sub-query: replace inside it
+            self.item = self.item.replace_table(current_table, new_table)
         self.criterion = self.criterion.replace_table(current_table, new_table)
 
 
@@ -1797,7 +1810,11 @@ class JoinUsing(Join):
         :return:
             A copy of the join with the tables replaced.
         """
-        self.item = new_table if self.item == current_table else self.item
+        if self.item == current_table:
+            self.item = new_table
+        elif isinstance(self.item, Term):
+            # a joined sub-query: replace inside it
+            self.item = self.item.replace_table(current_table, new_table)
         self.fields = [field.replace_table(current_table, new_table) for field in self.fields]
 
 
